@@ -18,6 +18,22 @@
 (*                   GetNodeAddress(SourceNodeID) to dial the source node                     *)
 (*   Remove(n,t)     runBridgeLifecycle on the source node when the bridge ends:              *)
 (*                   RemoveWaitingTunnel = unconditional Delete                               *)
+(*                   At the real call sites both are sequences of separately scheduled steps,   *)
+(*                   and the tunnel's end is an independent event (Mode = "split"):             *)
+(*   BridgeCreated(n,t)  startSourceBridge put the bridge into tunnelBridges; the record's Set  *)
+(*                       is issued (in flight: shared store round trip)                         *)
+(*   RecordSet(n,t)      the Set lands (RegisterWaitingTunnel returns); only THEN               *)
+(*                       startSourceBridge starts `go runBridgeLifecycle`.  ExpiresAt was fixed  *)
+(*                       when the Set was ISSUED, so the waiting period runs from BridgeCreated; *)
+(*                       a record landing after its period is expired on arrival                 *)
+(*   TunnelEnds(n,t)     the bridge is closed (source gone / served tunnel finished) - possible  *)
+(*                       as soon as the bridge is in the map, i.e. also while the Set is in flight*)
+(*   RecordRemoved(n,t)  runBridgeLifecycle saw the end: bridge out of the map,                  *)
+(*                       RemoveWaitingTunnel.  As-is it cannot run before RecordSet (the         *)
+(*                       lifecycle goroutine does not exist yet).  LifecycleFirst = TRUE models  *)
+(*                       the design in which the lifecycle is started before the registration:   *)
+(*                       the removal may then precede the Set, and a Set landing after the       *)
+(*                       removal is the named deviation "lateSet" (nothing removes that record). *)
 (*   Tick            the waiting period elapses (key TTL and ExpiresAt lapse together)        *)
 (*   LateLookup(m,t) the same lookup for an id that is not (any more) waiting: a late or      *)
 (*                   replayed TunnelOpen                                                      *)
@@ -34,8 +50,9 @@
 (* Scope: one source end per tunnel id at a time (startSourceBridge refuses a second bridge    *)
 (* for an id on its node; ids are generated per tunnel) - Register(n,t) is enabled only        *)
 (* when no bridge for t exists.  The id may be registered again after the earlier bridge ended.*)
-(* No deviation from the property was found in this code path, so the module has no            *)
-(* deviation actions; the as-is design satisfies the invariants below.                         *)
+(* The as-is code (LifecycleFirst = FALSE) has no deviation: LookupExact and LookupGone hold.   *)
+(* With LifecycleFirst = TRUE LookupGone is violated exactly through "lateSet"                  *)
+(* (LookupGoneOrDev holds).                                                                    *)
 EXTENDS Naturals, Sequences, FiniteSets, TLC, Json
 
 CONSTANTS Nodes, Tunnels,
@@ -43,29 +60,40 @@ CONSTANTS Nodes, Tunnels,
           MaxReg,       \* registrations per tunnel id (bounds the state graph)
           MaxClock, MaxHist,
           Shapes,       \* subset of {"identity", "jsonString", "jsonMap"}
-          Emit
+          Mode,         \* "atomic": Register / Remove as single events (RoutingTable API level)
+                        \* "split" : BridgeCreated / RecordSet / TunnelEnds / RecordRemoved (call sites)
+          LifecycleFirst,
+          Emit, Only    \* Only = "dev": print a behaviour only when its last event sets the deviation
 
 VARIABLES shape,
           rec,      \* tunnel -> [node, ver, ttl]   (ttl = remaining ticks, 0 = absent)
           addr,     \* node -> announced?
           bridge,   \* ghost: tunnel -> [on, node, ver, left]  the source end and its remaining waiting period
+                    \*   (the period runs from the moment the record's Set was issued)
+          flight,   \* tunnel -> [p, node, ver, left]  the record's Set is in flight (left = what remains of its period)
+          rmpend,   \* tunnel -> node on which the tunnel ended and whose lifecycle removal has not run yet | "-"
+          dev,      \* ghost: tunnel -> a Set landed after the removal ("lateSet") and its record is still there
           nreg,     \* tunnel -> registrations so far
           clock, hist
-vars    == <<shape, rec, addr, bridge, nreg, clock, hist>>
-view    == <<shape, rec, addr, bridge, nreg>>
-genview == <<shape, rec, addr, bridge, nreg, clock>>
+vars    == <<shape, rec, addr, bridge, flight, rmpend, dev, nreg, clock, hist>>
+view    == <<shape, rec, addr, bridge, flight, rmpend, dev, nreg>>
+genview == <<shape, rec, addr, bridge, flight, rmpend, dev, nreg, clock>>
 
 NoRec    == [node |-> "-", ver |-> 0, ttl |-> 0]
 NoBridge == [on |-> FALSE, node |-> "-", ver |-> 0, left |-> 0]
+NoFlight == [p |-> FALSE, node |-> "-", ver |-> 0, left |-> 0]
 
 Init == /\ shape \in Shapes
         /\ rec = [t \in Tunnels |-> NoRec]
         /\ addr = [n \in Nodes |-> FALSE]
         /\ bridge = [t \in Tunnels |-> NoBridge]
+        /\ flight = [t \in Tunnels |-> NoFlight]
+        /\ rmpend = [t \in Tunnels |-> "-"]
+        /\ dev = [t \in Tunnels |-> FALSE]
         /\ nreg = [t \in Tunnels |-> 0]
         /\ clock = 0 /\ hist = <<>>
 
-Out(h) == IF Emit THEN PrintT("BEH " \o ToJson(h)) ELSE TRUE
+Out(h) == IF Emit /\ (Only = "dev" => \E t \in Tunnels : dev'[t] /\ ~dev[t]) THEN PrintT("BEH " \o ToJson(h)) ELSE TRUE
 Log(a, n, t) == /\ hist' = Append(hist, [a |-> a, n |-> n, t |-> t])
                 /\ shape' = shape
                 /\ Out(hist')
@@ -85,43 +113,89 @@ LookupRes(t) ==
 Announce(n) ==
   /\ ~addr[n]
   /\ addr' = [addr EXCEPT ![n] = TRUE]
-  /\ UNCHANGED <<rec, bridge, nreg, clock>>
+  /\ UNCHANGED <<rec, bridge, flight, rmpend, dev, nreg, clock>>
   /\ Log("Announce", n, "-")
 
+Free(t) == ~bridge[t].on /\ ~flight[t].p /\ rmpend[t] = "-"      \* no bridge for t, nothing of an earlier one pending
+
 Register(n, t) ==
-  /\ addr[n] /\ ~bridge[t].on /\ nreg[t] < MaxReg
+  /\ Mode = "atomic"
+  /\ addr[n] /\ Free(t) /\ nreg[t] < MaxReg
   /\ nreg' = [nreg EXCEPT ![t] = @ + 1]
   /\ rec' = [rec EXCEPT ![t] = [node |-> n, ver |-> nreg[t] + 1, ttl |-> TTL]]
   /\ bridge' = [bridge EXCEPT ![t] = [on |-> TRUE, node |-> n, ver |-> nreg[t] + 1, left |-> TTL]]
-  /\ UNCHANGED <<addr, clock>>
+  /\ dev' = [dev EXCEPT ![t] = FALSE]
+  /\ UNCHANGED <<addr, flight, rmpend, clock>>
   /\ Log("Register", n, t)
 
-Waiting(t) == bridge[t].on /\ bridge[t].left > 0
+Waiting(t) == bridge[t].on /\ ~flight[t].p /\ bridge[t].left > 0
 
 \* lookups do not change the modelled state (deleting an expired key is a no-op here: key TTL
 \* and ExpiresAt lapse together)
-LookupEffect == UNCHANGED <<rec, addr, bridge, nreg, clock>>
+LookupEffect == UNCHANGED <<rec, addr, bridge, flight, rmpend, dev, nreg, clock>>
 Lookup(m, t)     == Waiting(t)  /\ LookupEffect /\ Log("Lookup", m, t)
 LateLookup(m, t) == ~Waiting(t) /\ LookupEffect /\ Log("Lookup", m, t)
 
 Remove(n, t) ==
+  /\ Mode = "atomic"
   /\ bridge[t].on /\ bridge[t].node = n
   /\ rec' = [rec EXCEPT ![t] = NoRec]
   /\ bridge' = [bridge EXCEPT ![t] = NoBridge]
-  /\ UNCHANGED <<addr, nreg, clock>>
+  /\ dev' = [dev EXCEPT ![t] = FALSE]
+  /\ UNCHANGED <<addr, flight, rmpend, nreg, clock>>
   /\ Log("Remove", n, t)
+
+\* ---- the same at the real call sites, step by step ------------------------------------------
+BridgeCreated(n, t) ==
+  /\ Mode = "split"
+  /\ addr[n] /\ Free(t) /\ nreg[t] < MaxReg
+  /\ nreg' = [nreg EXCEPT ![t] = @ + 1]
+  /\ bridge' = [bridge EXCEPT ![t] = [on |-> TRUE, node |-> n, ver |-> nreg[t] + 1, left |-> TTL]]
+  /\ flight' = [flight EXCEPT ![t] = [p |-> TRUE, node |-> n, ver |-> nreg[t] + 1, left |-> TTL]]
+  /\ UNCHANGED <<rec, addr, rmpend, dev, clock>>
+  /\ Log("Create", n, t)
+
+RecordSet(n, t) ==
+  /\ flight[t].p /\ flight[t].node = n
+  /\ rec' = [rec EXCEPT ![t] = IF flight[t].left > 0 THEN [node |-> n, ver |-> flight[t].ver, ttl |-> flight[t].left] ELSE NoRec]
+  /\ flight' = [flight EXCEPT ![t] = NoFlight]
+  /\ dev' = [dev EXCEPT ![t] = flight[t].left > 0 /\ ~bridge[t].on /\ rmpend[t] = "-"]   \* lateSet: ended AND already cleaned up
+  /\ UNCHANGED bridge
+  /\ UNCHANGED <<addr, rmpend, nreg, clock>>
+  /\ Log("Set", n, t)
+
+TunnelEnds(n, t) ==
+  /\ Mode = "split"
+  /\ bridge[t].on /\ bridge[t].node = n
+  /\ bridge' = [bridge EXCEPT ![t] = NoBridge]
+  /\ rmpend' = [rmpend EXCEPT ![t] = n]
+  /\ UNCHANGED <<rec, addr, flight, dev, nreg, clock>>
+  /\ Log("End", n, t)
+
+RecordRemoved(n, t) ==
+  /\ rmpend[t] = n
+  /\ LifecycleFirst \/ ~flight[t].p        \* as-is the lifecycle goroutine is started after the Set returned
+  /\ rec' = [rec EXCEPT ![t] = NoRec]
+  /\ rmpend' = [rmpend EXCEPT ![t] = "-"]
+  /\ dev' = [dev EXCEPT ![t] = FALSE]
+  /\ UNCHANGED <<addr, bridge, flight, nreg, clock>>
+  /\ Log("Removed", n, t)
 
 Tick ==
   /\ clock < MaxClock
   /\ clock' = clock + 1
   /\ rec' = [t \in Tunnels |-> IF rec[t].ttl <= 1 THEN NoRec ELSE [rec[t] EXCEPT !.ttl = @ - 1]]
   /\ bridge' = [t \in Tunnels |-> IF bridge[t].on /\ bridge[t].left > 0 THEN [bridge[t] EXCEPT !.left = @ - 1] ELSE bridge[t]]
-  /\ UNCHANGED <<addr, nreg>>
+  /\ dev' = [t \in Tunnels |-> dev[t] /\ rec[t].ttl > 1]
+  /\ flight' = [t \in Tunnels |-> IF flight[t].p /\ flight[t].left > 0 THEN [flight[t] EXCEPT !.left = @ - 1] ELSE flight[t]]
+  /\ UNCHANGED <<addr, rmpend, nreg>>
   /\ Log("Tick", "-", "-")
 
 Next == \/ Tick
         \/ \E n \in Nodes : Announce(n)
-        \/ \E n \in Nodes, t \in Tunnels : Register(n, t) \/ Lookup(n, t) \/ LateLookup(n, t) \/ Remove(n, t)
+        \/ \E n \in Nodes, t \in Tunnels :
+             \/ Register(n, t) \/ Lookup(n, t) \/ LateLookup(n, t) \/ Remove(n, t)
+             \/ BridgeCreated(n, t) \/ RecordSet(n, t) \/ TunnelEnds(n, t) \/ RecordRemoved(n, t)
 Spec == Init /\ [][Next]_vars
 Bounded == Len(hist) <= MaxHist
 
@@ -130,8 +204,15 @@ Bounded == Len(hist) <= MaxHist
 \* right node, and can obtain that node's address
 LookupExact == \A t \in Tunnels : Waiting(t) =>
                  LookupRes(t) = [r |-> "found", node |-> bridge[t].node, ver |-> bridge[t].ver, addr |-> TRUE]
-\* after the tunnel ended or its waiting period lapsed the id does not resolve
-LookupGone  == \A t \in Tunnels : ~Waiting(t) => LookupRes(t).r # "found"
+\* the id does not resolve when no tunnel of that id was ever waiting, when the tunnel has ended
+\* and its end has been fully processed (removal done, no write of it still in flight), or when
+\* the waiting period of a written record has lapsed.  (While an end is being processed, or a
+\* bridge exists whose record is not written yet, nothing is demanded.)
+Settled(t) == ~bridge[t].on /\ rmpend[t] = "-" /\ ~flight[t].p
+Lapsed(t)  == bridge[t].on /\ ~flight[t].p /\ bridge[t].left = 0
+LookupGone      == \A t \in Tunnels : (Settled(t) \/ Lapsed(t)) => LookupRes(t).r # "found"
+LookupGoneOrDev == \A t \in Tunnels : (Settled(t) \/ Lapsed(t)) => (LookupRes(t).r # "found" \/ dev[t])
+NoDev           == \A t \in Tunnels : ~dev[t]
 
 TypeOK == /\ \A t \in Tunnels : rec[t].ttl \in 0..TTL /\ nreg[t] \in 0..MaxReg
           /\ clock \in 0..MaxClock
